@@ -8,6 +8,7 @@ pub fn run(rep: &Report) -> bool {
     match rep.prop.as_str() {
         "C01" => props::c01::run(rep),
         "C03" => props::c03::run(rep),
+        "C04" => props::c04::run(rep),
         "C10" => props::c10::run(rep),
         "C13" => props::c13::run(rep),
         "C14" => props::c14::run(rep),
@@ -53,6 +54,7 @@ pub fn replay(rep: &Report, path: &str) -> i32 {
     match rep.prop.as_str() {
         "C01" => props::c01::replay(rep, &stage, &j),
         "C03" => props::c03::replay(rep, &stage, &j),
+        "C04" => props::c04::replay(rep, &stage, &j),
         "C10" => props::c10::replay(rep, &stage, &j),
         "C13" => props::c13::replay(rep, &stage, &j),
         "C14" => props::c14::replay(rep, &stage, &j),
